@@ -183,6 +183,7 @@ Inject(X, r, f) ==
       [] f.k = "dupg"   -> Dl(Dl(X, f.d, Fr("garb", 0, 0)), f.d, Fr("garb", 0, 1))
       [] f.k = "dup"    -> Dl(Dl(X, f.d, Fr("ans", r, 0)), f.d, Fr("ans", r, 1))
       [] f.k = "ansg"   -> Dl(Dl(X, f.d, Fr("ans", r, 0)), f.d, Fr("garb", 0, 0))
+      [] f.k = "gans"   -> Dl(Dl(X, f.d, Fr("garb", 0, 0)), f.d, Fr("ans", r, 0))
       [] f.k = "exc"    -> Dl(X, f.d, Fr("exc", r, f.x))
       [] f.k = "lone"   -> Dl(X, f.d, Fr("head", r, 0))
       [] f.k = "frag"   -> Dl(Dl(X, f.d, Fr("head", r, 0)), f.d2, Fr(f.x, r, 0))
@@ -317,8 +318,6 @@ Timeout(X, id) ==
 
 \* datagram_received / data_received
 Received(X, tr, f) ==
-    IF "F" \in Fx /\ ~FutPending(X.s) THEN X      \* repair F: data nobody waits for is ignored
-    ELSE
     LET X0a == [CancelTimer(X, X.s.timer) EXCEPT !.s.timer = 0]
         st == X0a.s
         fits == st.pb.what = "head" /\ f.what \in {"tail", "tailc"}
@@ -327,13 +326,16 @@ Received(X, tr, f) ==
         verdict == IF fits THEN (IF ACompletes(0, st.pb, f) THEN "accept" ELSE "refuse")
                    ELSE CASE f.what = "ans" -> "accept" [] f.what = "head" -> "partial"
                           [] f.what = "exc" -> "rejected" [] OTHER -> "refuse"
+        \* repair F: data nobody waits for has no effect
+        idle == "F" \in Fx /\ ~FutPending(X1.s)
     IN CASE verdict = "accept" ->
-              LET X2 == [X1 EXCEPT !.s.retry = 0] IN
-              IF FutPending(X2.s) THEN Resolve(X2, X2.s.cur, "result", data) ELSE X2
+              IF FutPending(X1.s) THEN Resolve([X1 EXCEPT !.s.retry = 0], X1.s.cur, "result", data)
+              ELSE IF idle THEN X1 ELSE [X1 EXCEPT !.s.retry = 0]
          [] verdict = "partial" ->
-              LET X2 == Arm([X1 EXCEPT !.s.pb = f], "tm", 0, now + T) IN [X2 EXCEPT !.s.timer = X1.s.nt]
+              IF idle THEN X1
+              ELSE LET X2 == Arm([X1 EXCEPT !.s.pb = f], "tm", 0, now + T) IN [X2 EXCEPT !.s.timer = X1.s.nt]
          [] verdict = "refuse" ->
-              IF Kind = "udp" THEN CallSoon(X1, CbTm(0))
+              IF Kind = "udp" THEN (IF idle THEN X1 ELSE CallSoon(X1, CbTm(0)))
               ELSE IF FutPending(X1.s)
                    THEN CloseTransport(Resolve(X1, X1.s.cur, "rejected", Fr("exc", 0, -1)))
                    ELSE X1
@@ -454,7 +456,7 @@ Spec == Init /\ [][Next]_vars /\ WF_vars(Next)
 (* properties                                                              *)
 (***************************************************************************)
 \* every clause of the monitor, in every reachable state of every schedule
-NoViolation == viol = {}
+NoViolation == viol \subseteq Mon!ObsClauses
 
 \* a request never hangs: whenever the loop runs dry every caller has finished
 NoHang == (Terminal \/ batch = -1) => \A c \in Callers : s.pc[c] = "done"
